@@ -49,7 +49,7 @@ def replay_callback(kind, which, retry, retries, fstate, validator, check):
         P._transport = mock.Mock()
         P._timer = None
         handle = None
-        if check.startswith("C05_no_armed_timeout_is_forgotten"):
+        if check.startswith("C04_C05_C07_no_armed_timeout_is_forgotten"):
             handle = loop.call_later(1000, lambda: None)       # the timeout of the attempt in flight, still armed
             P._timer = handle
         before = fut.done() if fut is not None else None
@@ -78,7 +78,7 @@ def replay_callback(kind, which, retry, retries, fstate, validator, check):
         out["violates"] = "raised" in out
     elif check.startswith("C04_C05_callback_does_not_refill_retry_budget"):
         out["violates"] = out.get("retry_after") != retry and not (out.get("got_result") and out.get("retry_after") == 0)
-    elif check.startswith("C05_no_armed_timeout_is_forgotten"):
+    elif check.startswith("C04_C05_C07_no_armed_timeout_is_forgotten"):
         out["violates"] = bool(out.get("forgotten_while_armed"))
     elif check.startswith("C04_callback_does_not_transmit"):
         out["violates"] = out.get("sent", 0) > 0
@@ -114,6 +114,9 @@ class _Peer:
             self.loop.call_soon(self._deliver, b"REJECT")
         elif step == "error":
             self.loop.call_soon(self.proto.error_received, OSError(113, "EHOSTUNREACH"))
+        elif step == "senderror" and self.kind == "udp":
+            # asyncio's datagram transport reports a failing socket.send() synchronously, inside sendto()
+            self.proto.error_received(OSError(101, "ENETUNREACH"))
 
     def _deliver(self, data):
         if self.kind == "udp":
@@ -185,7 +188,8 @@ def replay_exit(kind, retries, keep_alive, check):
     """canned fault scripts exercising the exits of send_request / execute"""
     retries = max(0, min(int(retries), 3))
     scripts = [["silent"] * (retries + 1), ["answer"]], [["reject"], ["silent"] * (retries + 1)], \
-        [["silent", "reject"], ["silent"] * (retries + 1)], [["error"], ["answer"]], [["answer"], ["answer"]]
+        [["silent", "reject"], ["silent"] * (retries + 1)], [["error"], ["answer"]], [["answer"], ["answer"]], \
+        [["senderror"], ["answer"]]
     out = {"runs": []}
     bad = False
     for sc in scripts:
@@ -252,3 +256,173 @@ def ground_c08():
     for o in obligations:
         o["cases"] = cases
     return {"cases": cases, "exhaustive": True, "failures": failures, "obligations": obligations}
+
+
+# ---- C01: validator binding of the command classes -----------------------------------------------------------------------------
+def replay_binding(cls, comm_addr, offset, value, values, data):
+    """the solver's byte string (and checksum-repaired variants of it), then a native search: well-formed answers to
+    *other* operations (other function code, register, value / count, AA55 response type) handed to the validator of
+    the command built from the given arguments.  violates = something is accepted that is not a well-formed answer
+    to this very request (independent spec wf_rtu / wf_tcp / wf_aa55)."""
+    import goodwe.protocol as gp
+    from goodwe.exceptions import PartialResponseException, RequestRejectedException
+    from contracts.modbus import wf_rtu, wf_tcp, _fix_crc_rtu
+    from contracts.protocol_cmd import wf_aa55, _fix_sum
+    from pyvc.spec import CRC16
+    aa55, multi, read = cls.startswith("Aa55"), "Multi" in cls, "Read" in cls
+    values = bytes(values or b"")
+    if multi and not values:
+        values = bytes(8 if aa55 else 2)
+    args = ([] if aa55 else [comm_addr]) + [offset] + ([values] if multi else [value])
+    cmd = getattr(gp, cls)(*args)
+    val = len(values) // 2 if multi else value
+    fn = 3 if read else (16 if multi else 6)
+
+    def wf(d):
+        if aa55:
+            return wf_aa55(d, "019A" if read else "02B9")
+        return wf_rtu(d, fn, offset, val) if "Rtu" in cls else wf_tcp(d, fn, offset, val)
+
+    def rtu(f, payload):
+        body = bytes([comm_addr & 0xFF, f]) + payload
+        c = CRC16(body)
+        return b"\xaa\x55" + body + bytes([c & 0xFF, c >> 8])
+
+    def tcp(f, payload):
+        return b"\x00\x01\x00\x00" + (len(payload) + 2).to_bytes(2, "big") + bytes([comm_addr & 0xFF, f]) + payload
+
+    def aa(rt, payload):
+        body = b"\xaa\x55\x7f\xc0" + bytes.fromhex(rt) + bytes([len(payload)]) + payload
+        return body + (sum(body) & 0xFFFF).to_bytes(2, "big")
+    cands = []
+    d0 = bytes(data or b"")
+    if d0:
+        cands.append(d0)
+        cands += list(_fix_sum(d0) if aa55 else (_fix_crc_rtu(d0) if "Rtu" in cls else []))
+    if aa55:
+        for rt in ("019A", "02B9", "0182", "0186", "0189", "039D", "0239", "011A"):
+            for n in (0, 1, 2, 8, 2 * max(val, 1)):
+                cands.append(aa(rt, bytes(n)))
+    else:
+        mk = rtu if "Rtu" in cls else tcp
+        for c in (1, 2, max(val, 1), max(val, 1) + 1, 125):
+            cands.append(mk(3, bytes([2 * c & 0xFF]) + bytes(2 * c)))
+        for f in (6, 16):
+            for o in (offset, offset ^ 1, 0):
+                for v in (val, val + 1, 0, -1, 1):
+                    cands.append(mk(f, o.to_bytes(2, "big") + (v & 0xFFFF).to_bytes(2, "big")))
+    out = {"candidates": len(cands), "violates": False}
+    for d in cands:
+        try:
+            acc = cmd.validator(d) is True
+        except (PartialResponseException, RequestRejectedException):
+            acc = False
+        except Exception as e:      # noqa
+            out.update(violates=True, data=d, raised=repr(e)[:100])
+            return out
+        if acc and not wf(d):
+            out.update(violates=True, data=d, accepted_but_not_wellformed=True)
+            return out
+    return out
+
+
+def replay_timer_delay(kind):
+    """every timeout the protocol object arms (call_later / call_at of _timeout_mechanism) is due one configured
+    timeout after the moment it is armed.  Real event loop, two concurrent callers; the peer answers after 0.6 of the
+    timeout and connecting takes 0.25 of it, so time passes between entering send_request and transmitting."""
+    T = 0.2
+    loop = asyncio.new_event_loop()
+    delays = []
+    orig_later, orig_at = loop.call_later, loop.call_at
+
+    def is_timeout(cb):
+        return getattr(cb, "__name__", "") == "_timeout_mechanism"
+
+    def call_later(delay, cb, *a, **k):
+        if is_timeout(cb):
+            delays.append(delay)
+        return orig_later(delay, cb, *a, **k)
+
+    def call_at(when, cb, *a, **k):
+        if is_timeout(cb):
+            delays.append(when - loop.time())
+        return orig_at(when, cb, *a, **k)
+    loop.call_later, loop.call_at = call_later, call_at
+
+    async def go():
+        P = _cls(kind)("127.0.0.1", 8899, 0xf7, T, 1)
+        P.keep_alive = True
+
+        class Slow(_Peer):
+            def _send(self, payload):
+                self.sent.append(bytes(payload))
+                orig_later(0.6 * T, self._deliver, b"ANSWER")
+        peer = Slow(loop, P, [], kind)
+
+        async def connect():
+            await asyncio.sleep(0.25 * T)
+            if not P._transport:
+                P._transport = peer
+        P._connect = connect
+        cmds = [ProtocolCommand(b"request%d" % i, lambda d: d == b"ANSWER") for i in range(2)]
+        return await asyncio.gather(*[c.execute(P) for c in cmds], return_exceptions=True)
+    try:
+        res = loop.run_until_complete(asyncio.wait_for(go(), 20))
+    finally:
+        loop.close()
+    bad = [d for d in delays if abs(d - T) > 0.1 * T]
+    return {"timeout": T, "delays_when_armed": delays, "outcomes": [type(r).__name__ for r in res],
+            "violates": bool(bad)}
+
+
+def replay_fragment_cleared(kind):
+    """at every transmission the fragment state of the previous one is gone: keep-alive on and off, the peer answers the
+    first transmission with a lone fragment (validator: PartialResponseException), stays silent, and the state is
+    inspected when the retransmission (and the next request) goes out"""
+    out = {"runs": [], "violates": False}
+    for keep_alive in (True, False):
+        loop = asyncio.new_event_loop()
+        seen = []
+
+        def validator(data):
+            if data == b"FRAG":
+                raise PartialResponseException(len(data), len(data) + 7)
+            return data == b"ANSWER"
+
+        async def go():
+            P = _cls(kind)("127.0.0.1", 8899, 0xf7, 0.02, 1)
+            P.keep_alive = keep_alive
+
+            class Frag(_Peer):
+                def _send(self, payload):
+                    self.sent.append(bytes(payload))
+                    seen.append({"partial_data": P._partial_data, "partial_missing": P._partial_missing})
+                    step = self.script.pop(0) if self.script else "silent"
+                    if step == "frag":
+                        self.loop.call_soon(self._deliver, b"FRAG")
+                    elif step == "answer":
+                        self.loop.call_soon(self._deliver, b"ANSWER")
+            script = ["frag", "silent", "frag", "answer"]
+
+            async def connect():
+                if not P._transport or P._transport.is_closing():
+                    P._transport = Frag(loop, P, script, kind)
+                    P._transport.script = script
+            P._connect = connect
+            res = []
+            for i in range(3):
+                try:
+                    await ProtocolCommand(b"request", validator).execute(P)
+                    res.append("response")
+                except BaseException as e:      # noqa
+                    res.append(type(e).__name__)
+            return res
+        try:
+            res = loop.run_until_complete(asyncio.wait_for(go(), 20))
+        finally:
+            loop.close()
+        dirty = [s for s in seen if s["partial_data"] is not None or s["partial_missing"] != 0]
+        out["runs"].append({"keep_alive": keep_alive, "outcomes": res, "transmissions": len(seen),
+                            "fragment_state_at_transmissions": [repr(s) for s in seen]})
+        out["violates"] |= bool(dirty)
+    return out
